@@ -186,6 +186,29 @@ func killFacts(f *ast.File, ft *facts) {
 		ft.killGuardDetail = "KILL call is not sent with calls.CallNoData"
 		return
 	}
+	// … UNCONDITIONALLY once the guard holds: the body is straight-line code (assignments, declarations and call
+	// statements only — no nested test, loop, switch, early return, go/defer, function literal). The model's
+	// `handle` KILLs whenever the guard holds; a further condition on the call (a cache of ids already killed,
+	// a rate limit, a state test inside the body) is code the model does not describe.
+	for _, s := range killIf.Body.List {
+		switch s.(type) {
+		case *ast.AssignStmt, *ast.ExprStmt, *ast.DeclStmt:
+		default:
+			ft.killGuardDetail = fmt.Sprintf("the body of the KILL guard is not straight-line code (%T at the guard's top level): the KILL is conditional on more than the guard", s)
+			return
+		}
+	}
+	funcLits := 0
+	ast.Inspect(killIf.Body, func(x ast.Node) bool {
+		if _, ok := x.(*ast.FuncLit); ok {
+			funcLits++
+		}
+		return true
+	})
+	if funcLits > 0 {
+		ft.killGuardDetail = "the body of the KILL guard contains a function literal: the KILL call is not made in line"
+		return
+	}
 	if blk, ok := killIf.Else.(*ast.BlockStmt); ok {
 		ft.elseUpdates = containsCall(blk, "m.updateTaskStatus") == 1
 	}
@@ -486,7 +509,7 @@ func genFacts(repo string) (string, error) {
 		fmt.Fprintf(&b, "/-- %s -/\ndef %s : Bool := %s\n\n", doc, name, lb(v))
 	}
 	ws := func(doc, name, v string) { fmt.Fprintf(&b, "/-- %s -/\ndef %s : String := %q\n\n", doc, name, v) }
-	ws("go/ast, (*Manager).handleMessage, case taskop.TaskStatusMessage: shape of the condition of the one `if` (a direct statement of the clause) whose body builds calls.Kill and sends it with calls.CallNoData. "+
+	ws("go/ast, (*Manager).handleMessage, case taskop.TaskStatusMessage: shape of the condition of the one `if` (a direct statement of the clause) whose body builds calls.Kill and sends it with calls.CallNoData UNCONDITIONALLY (the body is straight-line code: assignments, declarations, call statements; no nested test, loop, return, go/defer or function literal). "+
 		"\"reason+state\" = status.GetReason().String() == <literal> && (state == mesos.TASK_… || …), nothing else; "+
 		"\"reason+state+notInRoster\" = the same plus a conjunct m.GetTask(<status task id>) == nil (or m.roster.getByTaskId(…) == nil); \"other\" = anything else", "killGuard", ft.killGuard)
 	ws("the reason literal of that condition", "killReason", ft.killReason)
